@@ -5,8 +5,8 @@ import copy
 
 from ..mon import Watch, Reach
 from ..ref_sem import Lang, AModel
-from ..result import Budget, digest
-from ..stream import Built
+from ..result import Budget, digest, safe
+from ..stream import Built, TooExpensive, cpu_budget, CASE_CPU_S
 from ..gen_lang import gen_language, Cfg
 from ..gen_model import gen_amodel, build_real, MCfg
 
@@ -118,7 +118,7 @@ def first_diff(a, b, path=''):
     return None if a == b else '%s: %r vs %r' % (path, a, b)
 
 
-def check_case(case, res, count=True):
+def _check_case(case, res, count=True):
     """case = {spec, history}; returns first (key, what) or None"""
     import random
     from maltoolbox.language import LanguageGraph, LanguageClassesFactory
@@ -209,10 +209,16 @@ def check_case(case, res, count=True):
                     am = gen_amodel(rng2, lang, MCfg(max_assets=5, attackers=0.0))
                     fac = LanguageClassesFactory(g)
                     model, objs = build_real(lang, am, fac, Model, None)
-                    ag = AttackGraph(g, model)
+                    with cpu_budget(CASE_CPU_S):
+                        ag = AttackGraph(g, model)
                 elif op[0] == 'ag-regen':
                     if ag is not None:
-                        ag.regenerate_graph()
+                        with cpu_budget(CASE_CPU_S):
+                            ag.regenerate_graph()
+            except TooExpensive:
+                ag = None
+                if count:
+                    res.count('skipped:too-expensive-op')
             except Exception as exc:
                 diverge('history:raised-%s' % type(exc).__name__, 'step %d %s raised %r' % (i, op, exc))
             snap('step %d %s' % (i, op))
@@ -226,6 +232,9 @@ def check_case(case, res, count=True):
         for e in w.errors:
             res.inconc('monitor error %s' % (e,))
     return first[0]
+
+
+check_case = safe(_check_case)
 
 
 def run(rng, res, tier, shard, nshards):
